@@ -757,12 +757,17 @@ def correspond(ctx, side, res, answer, replay):
 
 
 # ====================================================================== shrinking
+SHRINK_WALL = 6.0       # wall seconds spent on shrinking one failing case (cases with 64 KiB backlogs cost ~0.5 s per run)
+
+
 def shrink(ctx, runner, hl, fails):
     """greedy: drop messages, drop cuts, fewer polls, plain stubs.  `hl` = {proto, msgs(desc), cuts, polls, stubs}"""
     budget = [150 if len(hl["msgs"]) <= 40 else 400]
 
+    t_end = time.time() + SHRINK_WALL
+
     def still(c):
-        if budget[0] <= 0:
+        if budget[0] <= 0 or time.time() > t_end:
             return False
         budget[0] -= 1
         try:
